@@ -251,7 +251,7 @@ def check(prop, tier, replay=None):
         for g in regs:
             first = round(g.start * fsr)
             n = len(g)
-            dets.append({"sn": first, "sd": fsr, "en": first + n, "ed": fsr, "dn": n, "dd": fsr,
+            dets.append({"sn": 1000 * first, "sd": fsr, "en": 1000 * (first + n), "ed": fsr, "dn": 1000 * n, "dd": fsr,
                          "sms": int(g.start * 1000), "ems": int(g.end * 1000), "dms": int(g.duration * 1000)})
         lines = []
         unparsed = 0
@@ -306,6 +306,28 @@ def check(prop, tier, replay=None):
                      "info": {"argv": job["argv"][:-1] + [os.path.basename(job["argv"][-1])], "kind": meta["kind"], "fmt": meta["fmt"], "api_kwargs": {k: v for k, v in api_kw.items()},
                               "stdout": r["stdout"][:400], "stderr": r["stderr"][-200:], "raised": r["raised"], "api_error": api_err, "extra_files": extra[:5],
                               "threads_left": r.get("threads_left")}})
+    # ---- the duration formatter on its own: all carries up to 100 hours (a recording of that length cannot be synthesised here)
+    from auditok import util as _util
+    grid = set()
+    for base in (0, 999, 1000, 59999, 60000, 3599999, 3600000, 86399999, 86400000, 90061001, 172800000, 359999999, 360000000):
+        for dlt in (-1001, -1, 0, 1, 999, 1000, 61001):
+            if base + dlt >= 0:
+                grid.add(base + dlt)
+    for _ in range(300 if tier == "quick" else 5000):
+        grid.add(rng.randint(0, 360000000))
+    grid = sorted(grid)
+    for tfk, tf in TFS:
+        fmt = _util.make_duration_formatter(tf)
+        lines, dets = [], []
+        for j, ms in enumerate(grid, start=1):
+            v = ms / 1000
+            s_, f_, ok_ = parse_time(tfk, fmt(v))
+            lines.append({"id": j, "s": s_, "e": s_, "d": 0, "hasd": False, "sf": f_, "ef": f_, "fields_ok": bool(ok_)})
+            dets.append({"sn": ms, "sd": 1, "en": ms, "ed": 1, "dn": 0, "dd": 1, "sms": int(v * 1000), "ems": int(v * 1000), "dms": 0})
+        runs.append({"present": [], "tf": tfk, "exit": 0, "raised": False, "lines": lines, "dets": dets, "stream_ok": True, "joined_ok": True,
+                     "regions_ok": True, "extra_files": 0, "unparsed": 0,
+                     "info": {"argv": [f"make_duration_formatter({tf!r}) on {len(grid)} values up to 100 h"], "kind": "formatter", "fmt": [], "api_kwargs": {},
+                              "stdout": " ".join(fmt(ms / 1000) for ms in grid[:6]), "stderr": "", "raised": None, "api_error": None, "extra_files": [], "threads_left": 0}})
     tcfg = "SPECIFICATION Spec\nCONSTRAINT Mon\nPOSTCONDITION Post\nCHECK_DEADLOCK FALSE\n"
     rows, st = judge("CliTrace", tcfg, runs, wd, "cli", weight=lambda x: len(x["lines"]) + 1, strip=lambda x: {k: v for k, v in x.items() if k != "info"})
     V.cov["states"] += st
@@ -315,13 +337,13 @@ def check(prop, tier, replay=None):
             V.violation({"argv": inf["argv"], "kind": inf["kind"]},
                         f"auditok {' '.join(inf['argv'])} ({inf['kind']} input {inf['fmt']}): exit={run['exit']} raised={inf['raised']} stdout={inf['stdout'][:160]!r} "
                         f"files(stream,joined,regions,extra)={run['stream_ok'], run['joined_ok'], run['regions_ok'], inf['extra_files']} unparsed={run['unparsed']}; "
-                        f"API split(**{inf['api_kwargs']}) -> {[(d_['sn'], d_['en']) for d_ in run['dets']]} (samples){' API error ' + str(inf['api_error']) if inf['api_error'] else ''}",
+                        f"API split(**{inf['api_kwargs']}) -> {[(d_['sn'] / d_['sd'], d_['en'] / d_['ed']) for d_ in run['dets']]} (ms){' API error ' + str(inf['api_error']) if inf['api_error'] else ''}",
                         {"leg": "R", "run": run})
     V.cov["traces_validated_against_impl"] += len(runs)
     V.count(len(runs), (canon(r_["info"]["argv"]) for r_ in runs if r_["dets"]))
     V.leg("R", runs=len(runs), wall_s=round(time.time() - t0, 2), with_detections=sum(1 for r_ in runs if r_["dets"]))
     ex = next((r_ for r_ in runs if len(r_["lines"]) >= 2), runs[0])
-    V.sample({"leg": "R", "argv": ex["info"]["argv"], "stdout": ex["info"]["stdout"][:200], "api_detections(samples)": [(d_["sn"], d_["en"]) for d_ in ex["dets"]]})
+    V.sample({"leg": "R", "argv": ex["info"]["argv"], "stdout": ex["info"]["stdout"][:200], "api_detections(ms)": [(d_["sn"] / d_["sd"], d_["en"] / d_["ed"]) for d_ in ex["dets"]]})
     shutil.rmtree(tmproot, ignore_errors=True)
     return V.finish(
         rule="leg M: every option vector with at most MaxPresent options present x palette values; leg R: one command-line execution per vector "
